@@ -39,4 +39,9 @@ theorem id_wrappers_limits : ∀ p ∈ idProbes,
 /-- the probe list does contain the boundary values -/
 theorem id_probes_cover : ∀ v ∈ [0, 31, 32, 255, 256, 4294967295], ∃ p ∈ idProbes, p.1 = v := by decide +kernel
 
+/-- the named levels are exactly those of Table A-1 (graph of the running code, re-decided on every run) -/
+theorem named_levels_are_table_A1 : Generated.levelKnown.length = 256 ∧ ∀ l : Fin 256,
+    Generated.levelKnown.getD l.val 9 = (if [10, 11, 12, 13, 20, 21, 22, 30, 31, 32, 40, 41, 42, 50, 51, 52, 60, 61, 62].contains l.val then 1 else 0) :=
+  _root_.C20.level_known
+
 end C20
